@@ -57,6 +57,9 @@ def generate(rng, tier):
     for n in range(0, 14 if tier == "quick" else 40):
         for i in range(-1, n + 2):
             yield f"index {n} {i}", "parse-index"
+    for n in (21, 22, 25) if tier == "quick" else range(41, 64):
+        for i in (0, 19, 20, 21, n - 1, n, n + 1):
+            yield f"index {n} {i}", "parse-index-long-file"
     # well-framed packets that are shorter than the definition describes (a 64-bit float follows the header)
     for n in (1, 3):
         yield f"parseshort {n}", "parse-undecodable"
